@@ -161,6 +161,13 @@ def make_states(objs, form):
             out.append(np.array(o, dtype=complex))
         elif form == "dm":
             out.append(R.proj(o))
+        elif form in ("natural", "natural_dm"):
+            # narrowest dtype that holds the state (float for real states, complex otherwise): one list then mixes dtypes
+            # (after seeded change C12-5: the prior-weighted states were stacked into a buffer typed after the FIRST state only)
+            v = np.array(o, dtype=complex)
+            if np.abs(v.imag).max() == 0:
+                v = np.ascontiguousarray(v.real)
+            out.append(v.reshape(-1, 1) if form == "natural" else np.outer(v, np.conj(v)))
         else:
             raise KeyError(form)
     return out
@@ -226,7 +233,7 @@ def _first(problems, nontrivial, **info):
     return viol(detail + more, site=site, observed=observed, expected=expected, nontrivial=nontrivial, **info)
 
 
-FULL_CALLS = [[f, s] for f in ("col", "1d", "dm") for s in (0, 1)]
+FULL_CALLS = [[f, s] for f in ("col", "1d", "dm") for s in (0, 1)] + [["natural", 0], ["natural_dm", 1]]
 
 
 # ------------------------------------------------------------------------------------------------ C12.ppt_value (dual form)
@@ -241,7 +248,7 @@ def ppt_value_cases(tier, seed):
         for sub in subsets(system, (3,)):
             if tier == "quick":
                 # deviation-bounded: default prior = generic; the two extreme calling configurations
-                yield {"sys": system, "kets": sub, "prior": "g0", "calls": [["col", 0], ["dm", 1]], "pform": pform_for("g0", crc(sub))}
+                yield {"sys": system, "kets": sub, "prior": "g0", "calls": [["col", 0], ["dm", 1], ["natural", 0]], "pform": pform_for("g0", crc(sub))}
             else:
                 for prior in ("uniform", "ramp", "g0"):
                     yield {"sys": system, "kets": sub, "prior": prior, "calls": FULL_CALLS, "pform": pform_for(prior, crc(sub))}
